@@ -152,6 +152,8 @@ theorem decodeRetryN_eq (c : Coder) (fuel cap : Nat) (data : Bytes) (hf : data.l
     · rename_i h
       have h1 := decode_optCap_lt h
       have h2 := newCap_gt cap
+      have h3 : ¬ (newCap cap ≤ cap) := by omega
+      simp only [h3, ↓reduceIte]
       rw [ih (newCap cap) (by omega)]
       split
       · rfl
